@@ -59,6 +59,9 @@ func zzC06Include(dflt, hdr, ftr int, tag string) (src string, wantD, wantH, wan
 	case 2:
 		src += `<template v-slot:f="p"><u>G-{{ p.x }}-{{ p.y }}-{{ outer }}</u></template>`
 		wantF = "<u>G-9-" + tag + "-OUT</u>"
+	case 3: // destructured
+		src += `<template #f="{ x, y }"><u>D-{{ x }}-{{ y }}-{{ outer }}</u></template>`
+		wantF = "<u>D-9-" + tag + "-OUT</u>"
 	}
 	src += `</template>`
 	return
@@ -68,13 +71,13 @@ func zzC06Include(dflt, hdr, ftr int, tag string) (src string, wantD, wantH, wan
 // content evaluated with the includer's variables plus the slot's props, and
 // two instances side by side that must not see each other's content.
 func VerifC06_Slots() {
-	d1, h1, f1 := zzChoice("d1", 5), zzChoice("h1", 3), zzChoice("f1", 3)
+	d1, h1, f1 := zzChoice("d1", 5), zzChoice("h1", 3), zzChoice("f1", 4)
 	two := zzBool("two")
 	src1, wantD1, wantH1, wantF1 := zzC06Include(d1, h1, f1, "A")
 	body := `<div>` + src1
 	var wantD2, wantH2, wantF2 string
 	if two {
-		d2, h2, f2 := zzChoice("d2", 5), zzChoice("h2", 3), zzChoice("f2", 3)
+		d2, h2, f2 := zzChoice("d2", 5), zzChoice("h2", 3), zzChoice("f2", 4)
 		var src2 string
 		src2, wantD2, wantH2, wantF2 = zzC06Include(d2, h2, f2, "B")
 		body += src2
